@@ -222,6 +222,7 @@ func c15(c *Ctx) {
 	c14ExportBuffer(c, "C15.8/export-carries-the-read-bytes")
 	exprTextRule(c, "C15.9/expression-text-round-trips")
 	c15PresenceGuardsOnly(c, "C15.10/conversion-guards-are-presence-tests")
+	c15WireIntegersSignExtended(c, "C15.13/wire-integers-are-sign-extended")
 	c15ValueUsedOnSuccessOnly(c, "C15.12/fallible-getter-value-used-on-success-only", func(f *ssa.Function) bool {
 		// the converters between the store's types and their messages (module-wide the shape also matches partial results
 		// such as the byte count of a failed Write, returned on purpose)
@@ -775,5 +776,53 @@ func c15ValueUsedOnSuccessOnly(c *Ctx, r string, inScope func(*ssa.Function) boo
 	}
 	if n < floor {
 		c.undecided(r, "floor", fmt.Sprintf("%d fallible calls examined, %d+ expected", n, floor))
+	}
+}
+
+// c15WireIntegersSignExtended: PostgreSQL integers (int2, int4, int8) travel as big-endian two's complement. A decoder
+// that widens the unsigned reading of a 2- or 4-byte integer straight to int64 turns every negative value into a large
+// positive one: the widening goes through the signed type of the same width.
+func c15WireIntegersSignExtended(c *Ctx, r string) {
+	n := 0
+	for _, f := range c.allFns {
+		if !fnInPkgs(f, []string{"pkg/pgsql/server"}) || len(f.Blocks) == 0 {
+			continue
+		}
+		res := f.Signature.Results()
+		if res.Len() == 0 || res.At(0).Type().String() != "int64" {
+			continue
+		}
+		k := 0
+		allInstrs(f, false, func(in ssa.Instruction) {
+			cv, ok := in.(*ssa.Convert)
+			if !ok || cv.Type().String() != "int64" {
+				return
+			}
+			from, ok := cv.X.Type().Underlying().(*types.Basic)
+			if !ok {
+				return
+			}
+			// only conversions of a wire reading (directly, or through the signed type of the same width)
+			src := cv.X
+			if inner, ok := src.(*ssa.Convert); ok {
+				src = inner.X
+			}
+			cl, ok := src.(*ssa.Call)
+			if !ok {
+				return
+			}
+			name := calleeName(&cl.Call)
+			if !(strings.HasSuffix(name, "Endian).Uint16") || strings.HasSuffix(name, "Endian).Uint32")) {
+				return
+			}
+			k++
+			n++
+			signed := from.Kind() == types.Int16 || from.Kind() == types.Int32
+			c.check(signed, r, fmt.Sprintf("%s:widening#%d", fnName(f), k), c.pos(in.Pos()), "widened through the signed type of the same width",
+				"a 2/4-byte integer read from the wire is widened to int64 from its UNSIGNED reading ("+from.Name()+"): negative values sent by the client arrive as large positive ones")
+		})
+	}
+	if n < 2 {
+		c.undecided(r, "floor", fmt.Sprintf("%d widenings of 2/4-byte wire integers to int64 found in pkg/pgsql/server (getInt64: 2 confirmed by hand)", n))
 	}
 }
